@@ -535,6 +535,17 @@ def scope_cases(tier):
                                         inc.append({'p': cands.index(prev), 'a': 9, 'b': 0, 'm': 'absorb'})
                             yield {'order': order, 'act': act, 'items': items, 'inc': inc,
                                    'tag': 'included/%s/%s/%s/%s' % (def_phase, use_phase, mode, target)}
+    # -rel-here: "the location of the current source file" - of the file in which the definition is written
+    for mode in ['plain', 'header', 'nested', 'absorb']:
+        for use_phase in ['setup', 'cleanup']:
+            items = {p: [] for p in ITEM_PHASES}
+            items['setup'] = [filler, _def('path', 'X', {'rel': 'here', 'name': S('n')}),
+                              _def('path', 'X2', {'rel': R('X'), 'name': S('m')})]
+            items[use_phase] = items[use_phase] + [_show('X2'), _def('path', 'H2', {'rel': 'here', 'name': S('o')}),
+                                                   _show('H2')]
+            yield {'order': CANONICAL_ORDER, 'act': _probe('act', [S(R('X'))]), 'items': items,
+                   'inc': [{'p': 0, 'a': 1, 'b': 1, 'm': mode}],
+                   'tag': 'rel-here/%s/%s' % (mode, use_phase)}
     # contents of the suite that the case belongs to: "included before the contents of the phase of each test case"
     # ([cleanup]: "included after")
     def place(ph, in_suite_items, in_case_items):
